@@ -25,9 +25,10 @@ import nfc.clf
 import nfc.tag
 import nfc.llcp
 import nfc.llcp.llc
+from symx.envpatch import CLOCK
 from env.recdevice import (RecDevice, Trace, Env, UnsupportedEnv, T2TagEnv,
                            ReaderEnv, PeerEnv, SlotEnv, HarnessLimit,
-                           make_frontend, open_frontend)
+                           make_frontend, open_frontend, new_frontend)
 
 PROPERTY = "C18"
 
@@ -187,6 +188,14 @@ def make_env(sx, tr, name):
         return Env(sx, tr)
     if name == "t2":
         return T2TagEnv(sx, tr, max_reads=2)
+    if name == "t2-3":
+        return T2TagEnv(sx, tr, max_reads=3)
+    if name == "reader-3":
+        return ReaderEnv(sx, tr, max_idle=0, max_cmds=3)
+    if name == "peer-init-3":
+        return PeerEnv(sx, tr, "initiator", max_symm=3)
+    if name == "peer-target-3":
+        return PeerEnv(sx, tr, "target", max_symm=3)
     if name == "t2-short":
         return T2TagEnv(sx, tr, max_reads=1, gone_kinds=("timeout",))
     if name == "t2-stay":
@@ -436,6 +445,24 @@ def check_connect(chk, tr, spec, status, value, envo):
                 "gone", "link-broken", "peer-ends", "peer-silent")]
         chk.check(len(reason) > 0, "on-release-without-reason:" + released[1])
 
+    # ---- while connected, terminate() is asked before every presence check /
+    #      command-response / symmetry exchange ("or when the 'terminate'
+    #      function returned a true value")
+    for i, e in cbs:
+        if e[2] == "on-connect" and truthy(e[4]) and spec['use_terminate']:
+            polled = False
+            for f in ev[i + 1:]:
+                if f[0] == "cb":
+                    break
+                if f[0] == "poll":
+                    polled = True
+                elif f[0] == "env" and f[1] in ("read-ok", "gone", "reader-cmd",
+                                                "reader-silent", "link-broken",
+                                                "peer-symm", "peer-ends"):
+                    chk.check(polled, "terminate-not-polled-between-exchanges:"
+                              + e[1])
+                    polled = False
+
     # ---- return value
     # modes whose activation we could not see at all (default callbacks)
     blind = [m for m in ("rdwr", "llcp", "card") if active[m]
@@ -504,6 +531,29 @@ def check_connect(chk, tr, spec, status, value, envo):
 
     # ---- progress: what the environment offered was taken up
     check_progress(chk, tr, spec, active)
+
+    # ---- discovery only as configured: the 'role' restriction of llcp and
+    #      the target list that rdwr 'on-startup' returned
+    disc = [e[1] for e in ev if e[0] == "drv" and
+            e[1].startswith(("sense_", "listen_"))]
+    if spec['modes'] == ["llcp"] and spec['role'] == "initiator":
+        chk.check(not any(d.startswith("listen_") for d in disc),
+                  "llcp-role-initiator-but-listening")
+    if spec['modes'] == ["llcp"] and spec['role'] == "target":
+        chk.check(not any(d.startswith("sense_") for d in disc),
+                  "llcp-role-target-but-polling")
+    if spec['modes'] == ["llcp"] and spec['role'] == "invalid":
+        chk.check(len(disc) == 0, "llcp-invalid-role-but-discovering")
+    if spec['modes'] == ["rdwr"] and active['rdwr']:
+        meth = {"106A": "sense_tta", "106B": "sense_ttb", "212F": "sense_ttf"}
+        allowed = [meth[t] for t in effective_targets(spec)]
+        # (a Type 2 Tag re-senses its own target only in read(); not used here)
+        chk.check(all(d in allowed for d in disc),
+                  "rdwr-senses-target-not-in-startup-result")
+        if spec['env'] == "none" and disc:
+            k = len(allowed)
+            chk.check(all(disc[i] == allowed[i % k] for i in range(len(disc))),
+                      "rdwr-sense-order-differs-from-target-list")
 
     # ---- LED / buzzer: on iff 'beep-on-connect' and on-connect true
     if "rdwr" in spec['modes']:
@@ -695,9 +745,11 @@ def programmed_sense(sx, chk, clf, dev, envo, tr, kinds, pfx, iters):
     kw = {}
     if it is not None:
         kw['iterations'] = it
-        kw['interval'] = 0.01
+        kw['interval'] = 0.5
     mark = len(tr.ev)
+    t0 = CLOCK.t
     status, value = call(clf.sense, *args, **kw)
+    elapsed = CLOCK.t - t0
     ev = tr.ev[mark:]
     drv = [e for e in ev if e[0] == "drv"]
 
@@ -742,6 +794,12 @@ def programmed_sense(sx, chk, clf, dev, envo, tr, kinds, pfx, iters):
         chk.check(value is None, "sense-returned-something-not-found")
         chk.check(len(drv) > 0 and drv[-1][1] == "mute",
                   "field-left-on-after-unsuccessful-sense")
+        if it is not None and n > 0:
+            # 'interval' seconds between iterations, none after the last
+            chk.check(elapsed >= (rounds - 1) * 0.5 - 0.05,
+                      "interval-between-iterations-not-waited")
+            chk.check(elapsed < (rounds - 1) * 0.5 + 0.2,
+                      "waiting-time-after-last-iteration")
     chk.check(got == want, "sense-order-differs-from-argument-order")
     return status, value, exp
 
@@ -1088,7 +1146,7 @@ def lifecycle_scn(sx, mode="contract", hook=None):
     envo = SlotEnv(sx, tr)
     dev = RecDevice(sx, envo, tr)
     dev.hook = hook
-    clf = nfc.clf.ContactlessFrontend()
+    clf = new_frontend()
     dev.clf = clf
     dev.entry = "open"
     out = {}
@@ -1170,163 +1228,213 @@ def connect_partitions(tier):
     """(name, params) of all connect() scenarios - shared with C15"""
     P = []
     full = tier == "thorough"
-    one = lambda vs: vs if full else vs
+    K = 3 if full else 2
+    t2 = "t2-3" if full else "t2"
+    budget = 45 if full else 30
     # ---- reader/writer, one callback at a time over all 8 result values
-    for env in ("t2", "t2-stay"):
+    for env in (t2, "t2-stay"):
         P.append(("rdwr:%s:discover" % env, dict(
             modes=["rdwr"], env=env, startup=dict(rdwr=["all"]),
             vals={"on-discover": ALL8 + ["default"], "on-connect": TF,
-                  "on-release": ["True"]}, K=2, targets=["106A"])))
+                  "on-release": ["True"]}, K=K, targets=["106A"])))
         P.append(("rdwr:%s:connect" % env, dict(
             modes=["rdwr"], env=env, startup=dict(rdwr=["default"]),
             vals={"on-discover": ["True"], "on-connect": ALL8 + ["default"],
-                  "on-release": ["True", "default"]}, K=2,
+                  "on-release": ["True", "default"]}, K=K,
             beep=["default", True, False])))
         P.append(("rdwr:%s:release" % env, dict(
             modes=["rdwr"], env=env, startup=dict(rdwr=["all"]),
             vals={"on-discover": ["default"], "on-connect": ["True", "1"],
-                  "on-release": ALL8 + ["default"]}, K=3, targets=["106A"])))
+                  "on-release": ALL8 + ["default"]}, K=K + 1,
+            targets=["106A"])))
+    # all combinations of the three callback results
+    for d in (ALL8 if full else ["True"]):
+        P.append(("rdwr:product:discover=" + d, dict(
+            modes=["rdwr"], env=t2, startup=dict(rdwr=["all"]),
+            vals={"on-discover": [d], "on-connect": ALL8, "on-release": ALL8},
+            K=K, targets=["106A"], beep=[True, False] if full else ["default"])))
     P.append(("rdwr:startup", dict(
         modes=["rdwr"], env="t2-short",
         startup=dict(rdwr=["default", "all", "first", "last", "empty", "None",
                            "False"]),
-        vals={"on-discover": TF, "on-connect": TF, "on-release": ["True"]},
-        K=2, targets=["212F", "106A"])))
+        vals={"on-discover": SMALL if full else TF, "on-connect": TF,
+              "on-release": ["True"]},
+        K=K, targets=["212F", "106A"])))
     P.append(("rdwr:late-tag", dict(
         modes=["rdwr"], env="t2-late", startup=dict(rdwr=["default"]),
         vals={"on-discover": SMALL, "on-connect": SMALL,
-              "on-release": ["True"]}, K=3, targets=["106A", "106B"])))
+              "on-release": ["True"]}, K=K + 1, targets=["106A", "106B"])))
     P.append(("rdwr:no-tag", dict(
         modes=["rdwr"], env="none", startup=dict(rdwr=["default", "first"]),
         vals={"on-discover": TF, "on-connect": TF, "on-release": TF},
-        K=3, iterations=(-1, 3))))
+        K=K + 1, iterations=(-1, 4 if full else 3))))
     P.append(("rdwr:unsupported", dict(
         modes=["rdwr"], env="unsup-a", startup=dict(rdwr=["default", "first",
                                                           "last"]),
         vals={"on-discover": TF, "on-connect": TF, "on-release": TF},
-        K=2, targets=["106A", "106B"])))
+        K=K, targets=["106A", "106B"])))
+    P.append(("rdwr:unsupported-all", dict(
+        modes=["rdwr"], env="unsup-all", startup=dict(rdwr=["default", "first"]),
+        vals={"on-discover": TF, "on-connect": TF, "on-release": TF},
+        K=K)))
     P.append(("rdwr:no-terminate", dict(
         modes=["rdwr"], env="t2-short", startup=dict(rdwr=["default"]),
-        vals={"on-discover": ["True"], "on-connect": TF,
+        vals={"on-discover": ["True"], "on-connect": SMALL,
               "on-release": ["True"]}, use_terminate=False)))
     P.append(("rdwr:io-in-callback", dict(
-        modes=["rdwr"], env="t2", startup=dict(rdwr=["default"]),
-        vals={"on-discover": ["True"], "on-connect": TF,
-              "on-release": ["True"]}, K=2, io=True, targets=["106A"])))
-    if full:
-        P.append(("rdwr:t2:product", dict(
-            modes=["rdwr"], env="t2", startup=dict(rdwr=["all"]),
-            vals={"on-discover": ALL8, "on-connect": ALL8,
-                  "on-release": ALL8}, K=3, targets=["106A"])))
+        modes=["rdwr"], env=t2, startup=dict(rdwr=["default"]),
+        vals={"on-discover": ["True"], "on-connect": SMALL,
+              "on-release": ["True"]}, K=K, io=True, targets=["106A"])))
     # ---- host link faults (IOError, KeyboardInterrupt) at any driver call
-    for kind in ("IOError", "KeyboardInterrupt"):
-        for pers in (False, True):
-            if kind == "KeyboardInterrupt" and pers:
-                continue
-            P.append(("rdwr:fault:%s:%s" % (kind, "persistent" if pers else "once"),
-                      dict(modes=["rdwr"], env="t2-short",
-                           startup=dict(rdwr=["default"]),
-                           vals={"on-discover": ["True"], "on-connect": TF,
-                                 "on-release": ["True"]}, K=2,
-                           targets=["106A"],
-                           fault=dict(kind=kind, budget=12, persistent=pers))))
+    faults = [("IOError", False), ("IOError", True),
+              ("KeyboardInterrupt", False)]
+    for kind, pers in faults:
+        P.append(("rdwr:fault:%s:%s" % (kind, "persistent" if pers else "once"),
+                  dict(modes=["rdwr"], env="t2" if full else "t2-short",
+                       startup=dict(rdwr=["default"]),
+                       vals={"on-discover": ["True"], "on-connect": TF,
+                             "on-release": ["True"]}, K=K,
+                       targets=["106A"],
+                       fault=dict(kind=kind, budget=budget, persistent=pers))))
     # ---- card emulation
-    for env in ("reader", "reader-silent"):
+    for env in ("reader-3" if full else "reader", "reader-silent"):
         P.append(("card:%s:discover" % env, dict(
             modes=["card"], env=env, startup=dict(card=["target"]),
             vals={"on-discover": ALL8 + ["default"], "on-connect": TF,
-                  "on-release": ["True"]}, K=2)))
+                  "on-release": ["True"]}, K=K)))
         P.append(("card:%s:connect" % env, dict(
             modes=["card"], env=env, startup=dict(card=["target"]),
             vals={"on-discover": ["True"], "on-connect": ALL8 + ["default"],
-                  "on-release": ["True", "default"]}, K=2)))
+                  "on-release": ["True", "default"]}, K=K)))
         P.append(("card:%s:release" % env, dict(
             modes=["card"], env=env, startup=dict(card=["target"]),
             vals={"on-discover": ["default"], "on-connect": ["True"],
-                  "on-release": ALL8 + ["default"]}, K=3)))
+                  "on-release": ALL8 + ["default"]}, K=K + 1)))
+    for d in (ALL8 if full else ["True"]):
+        P.append(("card:product:discover=" + d, dict(
+            modes=["card"], env="reader", startup=dict(card=["target"]),
+            vals={"on-discover": [d], "on-connect": ALL8, "on-release": ALL8},
+            K=K)))
     P.append(("card:startup", dict(
         modes=["card"], env="reader",
         startup=dict(card=["default", "target", "None", "False", "x"]),
         vals={"on-discover": TF, "on-connect": TF, "on-release": ["True"]},
-        K=2)))
+        K=K)))
     for env in ("reader-late", "reader-nocmd", "reader-a", "none"):
         P.append(("card:" + env, dict(
             modes=["card"], env=env,
             startup=dict(card=["target-a" if env == "reader-a" else "target"]),
-            vals={"on-discover": SMALL, "on-connect": TF,
-                  "on-release": ["True"]}, K=2)))
-    P.append(("card:fault:IOError", dict(
-        modes=["card"], env="reader", startup=dict(card=["target"]),
-        vals={"on-discover": ["True"], "on-connect": TF,
-              "on-release": ["True"]}, K=2,
-        fault=dict(kind="IOError", budget=10, persistent=False))))
+            vals={"on-discover": SMALL, "on-connect": SMALL if full else TF,
+                  "on-release": ["True"]}, K=K)))
+    for kind, pers in faults:
+        P.append(("card:fault:%s:%s" % (kind, "persistent" if pers else "once"),
+                  dict(modes=["card"], env="reader",
+                       startup=dict(card=["target"]),
+                       vals={"on-discover": ["True"], "on-connect": TF,
+                             "on-release": ["True"]}, K=K,
+                       fault=dict(kind=kind, budget=budget, persistent=pers))))
     # ---- peer to peer
     for env, role in (("peer-init", "target"), ("peer-target", "initiator")):
+        env3 = env + "-3" if full else env
         P.append(("llcp:%s:connect" % env, dict(
-            modes=["llcp"], env=env, role=role,
+            modes=["llcp"], env=env3, role=role,
             startup=dict(llcp=["default"]),
             vals={"on-connect": ALL8 + ["default"],
-                  "on-release": ["True", "default"]}, K=2)))
+                  "on-release": ["True", "default"]}, K=K)))
         P.append(("llcp:%s:release" % env, dict(
-            modes=["llcp"], env=env, role=role, startup=dict(llcp=["llc"]),
+            modes=["llcp"], env=env3, role=role, startup=dict(llcp=["llc"]),
             vals={"on-connect": ["True"], "on-release": ALL8 + ["default"]},
-            K=3)))
+            K=K + 1)))
+        P.append(("llcp:%s:product" % env, dict(
+            modes=["llcp"], env=env, role=role, startup=dict(llcp=["llc"]),
+            vals={"on-connect": ALL8, "on-release": ALL8}, K=K)))
         P.append(("llcp:%s:both-roles" % env, dict(
             modes=["llcp"], env=env, role=None, startup=dict(llcp=["llc"]),
-            vals={"on-connect": TF, "on-release": ["True"]}, K=2)))
-        P.append(("llcp:%s:fault:IOError" % env, dict(
-            modes=["llcp"], env=env, role=role, startup=dict(llcp=["llc"]),
-            vals={"on-connect": TF, "on-release": ["True"]}, K=2,
-            fault=dict(kind="IOError", budget=14, persistent=False))))
+            vals={"on-connect": SMALL, "on-release": ["True", "None"]}, K=K)))
+        for kind, pers in faults:
+            P.append(("llcp:%s:fault:%s:%s" % (
+                env, kind, "persistent" if pers else "once"), dict(
+                modes=["llcp"], env=env, role=role, startup=dict(llcp=["llc"]),
+                vals={"on-connect": TF, "on-release": ["True"]}, K=K,
+                fault=dict(kind=kind, budget=budget, persistent=pers))))
         P.append(("llcp:%s:nomagic" % env, dict(
             modes=["llcp"], env=env + "-nomagic", role=role,
             startup=dict(llcp=["llc"]),
-            vals={"on-connect": TF, "on-release": ["True"]}, K=2)))
+            vals={"on-connect": TF, "on-release": ["True"]}, K=K)))
     P.append(("llcp:startup", dict(
         modes=["llcp"], env="peer-init", role="target",
         startup=dict(llcp=["default", "llc", "None", "False", "obj"]),
-        vals={"on-connect": TF, "on-release": ["True"]}, K=2)))
+        vals={"on-connect": TF, "on-release": ["True"]}, K=K)))
     P.append(("llcp:late-peer", dict(
         modes=["llcp"], env="peer-init-late", role="target",
         startup=dict(llcp=["llc"]),
-        vals={"on-connect": SMALL, "on-release": ["True"]}, K=3)))
+        vals={"on-connect": SMALL, "on-release": ["True"]}, K=K + 1)))
     P.append(("llcp:wrong-role", dict(
         modes=["llcp"], env="peer-init", role="initiator",
         startup=dict(llcp=["llc"]),
-        vals={"on-connect": TF, "on-release": ["True"]}, K=2)))
+        vals={"on-connect": TF, "on-release": ["True"]}, K=K)))
     P.append(("llcp:invalid-role", dict(
         modes=["llcp"], env="peer-init", role="invalid",
         startup=dict(llcp=["llc"]),
-        vals={"on-connect": TF, "on-release": ["True"]}, K=2)))
+        vals={"on-connect": TF, "on-release": ["True"]}, K=K)))
     P.append(("llcp:no-peer", dict(
         modes=["llcp"], env="none", role=None, startup=dict(llcp=["default"]),
-        vals={"on-connect": TF, "on-release": ["True"]}, K=2)))
+        vals={"on-connect": TF, "on-release": ["True"]}, K=K)))
     for env in ("peer-init-lto", "peer-target-lto"):
         P.append(("llcp:%s" % env, dict(
             modes=["llcp"], env=env,
             role="target" if "init" in env else "initiator",
             startup=dict(llcp=["llc"]),
-            vals={"on-connect": ["True"], "on-release": ["True"]}, K=2)))
+            vals={"on-connect": ["True"], "on-release": ["True"]}, K=K)))
     # ---- combinations of options: every subset x what is in the field
     subsets = [["rdwr", "llcp"], ["rdwr", "card"], ["llcp", "card"],
                ["rdwr", "llcp", "card"]]
     for sub in subsets:
         for env in ("none", "t2-short", "reader", "peer-init", "peer-target"):
-            if not full and env == "peer-target" and len(sub) == 2 \
-                    and "llcp" not in sub:
-                continue
             st = {}
             if "rdwr" in sub:
-                st['rdwr'] = ["default", "empty"]
+                st['rdwr'] = ["default", "empty"] if not full else \
+                    ["default", "all", "empty", "None"]
             if "llcp" in sub:
-                st['llcp'] = ["default", "None"]
+                st['llcp'] = ["default", "None"] if not full else \
+                    ["default", "llc", "None", "obj"]
             if "card" in sub:
-                st['card'] = ["target", "default"]
+                st['card'] = ["target", "default"] if not full else \
+                    ["target", "default", "False"]
             P.append(("mix:%s:%s" % ("+".join(sub), env), dict(
                 modes=sub, env=env, startup=st,
-                vals={"on-discover": ["True", "default"],
-                      "on-connect": TF, "on-release": ["True", "None"]},
-                K=2, targets=["106A"])))
+                vals={"on-discover": ["True", "default"] if not full else
+                      ["True", "False", "default"],
+                      "on-connect": TF if not full else ALL8,
+                      "on-release": ["True", "None"] if not full else SMALL},
+                K=2 if not full else 3, targets=["106A"])))
+    # a host link fault while several options are active
+    for env in ("t2-short", "reader", "peer-init", "peer-target"):
+        for kind, pers in (faults if full else faults[:1]):
+            P.append(("mix:all:%s:fault:%s:%s" % (
+                env, kind, "persistent" if pers else "once"), dict(
+                modes=["rdwr", "llcp", "card"], env=env,
+                startup=dict(rdwr=["default"], llcp=["default"],
+                             card=["target"]),
+                vals={"on-discover": ["True"], "on-connect": TF,
+                      "on-release": ["True"]}, K=2, targets=["106A"],
+                fault=dict(kind=kind, budget=budget + 15, persistent=pers))))
+    if full:
+        for env in ("t2-stay", "t2-late"):
+            P.append(("rdwr:product:" + env, dict(
+                modes=["rdwr"], env=env, startup=dict(rdwr=["all"]),
+                vals={"on-discover": SMALL, "on-connect": ALL8,
+                      "on-release": ALL8}, K=K, targets=["106A"])))
+        for env in ("reader-silent", "reader-late", "reader-3"):
+            P.append(("card:product:" + env, dict(
+                modes=["card"], env=env, startup=dict(card=["target"]),
+                vals={"on-discover": SMALL, "on-connect": ALL8,
+                      "on-release": ALL8}, K=K)))
+        for env, role in (("peer-init-3", "target"), ("peer-target-3", None),
+                          ("peer-init-late", None)):
+            P.append(("llcp:product:" + env, dict(
+                modes=["llcp"], env=env, role=role, startup=dict(llcp=["llc"]),
+                vals={"on-connect": ALL8, "on-release": ALL8}, K=K + 1)))
     P.append(("none:no-options", dict(modes=[], env="t2-short", K=1)))
     return P
 
@@ -1334,15 +1442,16 @@ def connect_partitions(tier):
 def sense_partitions(tier):
     P = []
     full = tier == "thorough"
-    P.append(("sense:0", "sense_scn", dict(n=0)))
-    P.append(("sense:1", "sense_scn", dict(n=1)))
+    its = [None, -1, 0, 1, 2, 3] if full else [None, 0, 1, 2]
+    P.append(("sense:0", "sense_scn", dict(n=0, iters=its)))
+    P.append(("sense:1", "sense_scn", dict(n=1, iters=its)))
     for k in SENSE_KINDS:
-        P.append(("sense:2:" + k, "sense_scn", dict(n=2, first=k)))
+        P.append(("sense:2:" + k, "sense_scn", dict(n=2, first=k, iters=its)))
     reduced = ["A", "F", "DEP", "A-unsup", "X", "A-commerr", "A-badsel"]
     for k in (SENSE_KINDS if full else reduced):
         P.append(("sense:3:" + k, "sense_scn", dict(
             n=3, first=k, kindset=SENSE_KINDS if full else reduced,
-            iters=[None, 2])))
+            iters=[None, 0, 2, 3] if full else [None, 2])))
     for n in (1, 2):
         P.append(("sense:tta-response:%d" % n, "sense_tta_response_scn",
                   dict(n=n)))
@@ -1363,14 +1472,78 @@ def partitions(tier):
     return parts
 
 
-MUST_REACH = ["sense:0", "sense:1", "sense:2", "sense:3",
+MUST_REACH = ["connect:false:IOError", "connect:false:KeyboardInterrupt",
+              "connect:false:unsupported", "connect:iterations-counted",
+              "connect:none:no-options", "connect:none:terminated",
+              "connect:true:default-callbacks"] + \
+    ["connect:%s:%s" % (w, m) for w in ("object", "released")
+     for m in ("rdwr", "llcp", "card")] + \
+    ["sense:0", "sense:1", "sense:2", "sense:3",
               "tta-response-accepted", "tta-response-rejected",
               "stale:sense", "stale:listen", "lifecycle"] + \
     ["listen:" + k for k in LISTEN_KINDS]
 
+_B = (
+    "connect(): option sets {rdwr}, {llcp}, {card}, every 2- and 3-subset and "
+    "the empty set; on-startup per option not supplied / conforming result "
+    "(the list, its first or last element; the llc; the prepared 212F or 106A "
+    "target) / [], None, False, foreign object; on-discover, on-connect, "
+    "on-release each not supplied or returning one of True, False, None, 0, 1, "
+    "'', 'x', object(): one callback at a time over all 8 values with the "
+    "others from small sets, plus the product on-connect x on-release (8x8) "
+    "per mode%(prod)s; repeated calls return True/False; terminate() absent or "
+    "monotone, turning true at poll 0..%(K)d (picked lazily at every poll); "
+    "beep-on-connect absent/True/False; rdwr 'iterations' SYMBOLIC in "
+    "-1..%(it)d with 1-3 targets; llcp role absent/initiator/target/'invalid'. "
+    "Environments (every decision picked at the moment the code asks): empty "
+    "field; generic Type 2 Tag (SYMBOLIC 16 byte memory image and NAK byte) "
+    "present at once or after one sense round, vanishing at presence check "
+    "0..%(rd)d by silence / NAK / CRC error, or outliving terminate; driver "
+    "raising UnsupportedTargetError for Type A or for everything; reader that "
+    "activates the emulated Type 3 Tag at once or after one idle listen, sends "
+    "0..%(rd)d polling/request-response commands mixed with silent periods, "
+    "then leaves (BrokenLinkError) or stays silent for ever; reader without a "
+    "first command and Type A reader (nothing to emulate); NFC-DEP/LLCP peer "
+    "as initiator or as 212F passive target, 0..%(rd)d SYMM exchanges then "
+    "silence / DSL_REQ / LLCP DISC, wrong LLCP magic, peer link timeout "
+    "SYMBOLIC 10..2550 ms (MonoFloat deadlines) in two partitions; one "
+    "host-link fault (IOError once, IOError from then on, KeyboardInterrupt) "
+    "at any of the first %(fb)d driver calls.  sense(): 0..3 targets out of "
+    "10 kinds (A, B, F, DEP; driver-unsupported A/F; unknown technology "
+    "'999X'; 5 byte sel_req; 15 byte atr_req; driver CommunicationError)"
+    "%(s3)s, iterations %(its)s with interval 0.5 s on the virtual clock, the "
+    "answering (round, target) slot any or none; Type A discovery response "
+    "SYMBOLIC (SENS_RES 1..3 bytes, RID_RES absent/5/6 bytes); listen(): "
+    "DEP/A/B/F/unknown brty x activated/not/UnsupportedTargetError/"
+    "ValueError, ATR_REQ of 15/16/64/65 bytes; exchange() after each with "
+    "SYMBOLIC answer; 6 first x 12 failing second operations (stale target); "
+    "open (found / not found), close/__exit__/with/re-open with and without "
+    "driver close() failing, all 8 operations on a frontend without device.  "
+    "Apart from the data marked SYMBOLIC everything is control-flow "
+    "enumeration (sx.pick): the claim is about call histories, not data.")
 BOUNDS = {
-    "quick": "see module docstring",
-    "thorough": "see module docstring",
+    "quick": _B % dict(prod="", K=3, it=3, rd=2, fb=30, its="absent/0/1/2",
+                       s3=" (7 kinds for 3 targets)"),
+    "thorough": _B % dict(prod=" and the full 8x8x8 product with on-discover "
+                          "for rdwr and card", K=4, it=4, rd=3, fb=45,
+                          its="absent/-1/0/1/2/3", s3=""),
 }
-OUTSIDE = []
-ASSUMPTIONS = []
+OUTSIDE = [
+    "tags other than a generic (non-NXP) Type 2 Tag: Type 1/3/4 and NXP activation sequences belong to C08; tag I/O inside callbacks beyond one presence check",
+    "LLCP traffic other than SYMM/DISC, DID/NAD, 106A framing and active communication mode of the peer, bit rates other than the default PSL, LLCP data protection (OpenSSL not loadable here)",
+    "callbacks that raise or re-enter the frontend; terminate() that is not monotone or raises",
+    "on-startup results that are true but not lists/llc/LocalTarget beyond the listed ones (e.g. 1: TypeError is neither documented nor excluded)",
+    "positional arguments of sense() that are not RemoteTarget objects; non-dictionary option values",
+    "the default rdwr on-discover's peer-to-peer filter (needs a Type 4A+DEP target)",
+    "options that are only passed through (card 'timeout'; llcp brs/acm/rwt/lri/lrt/miu/lto/agf/sec)",
+    "real time and real threads (virtual clock; one thread)",
+    "more than 3 targets, more than 3 sense rounds, more exchanges/polls than the stated bounds",
+]
+ASSUMPTIONS = [
+    "the contract is the docstring of connect()/sense()/listen()/exchange(); a true on-connect means connect() returns True after on-release for all three modes (stated for rdwr, asserted by the repository's tests for llcp and card)",
+    "env.recdevice: RecDevice and its scripts behave as nfc.clf.device.Device documents a driver (target invalid after mute/sense/listen, UnsupportedTargetError for unsupported discovery, TimeoutError when nothing answers, TransmissionError for a garbled answer, BrokenLinkError when the reader leaves)",
+    "Type A response oracle: SENS_RES has 2 bytes; SDD bits 0 => byte 2 low nibble 1100b and a 6 byte RID_RES with HR0 high nibble 0001b (NFC Forum Digital; the same rules sense_tta names in its messages)",
+    "an ATR_REQ outside 16..64 bytes reported by the driver is not an activation (NFC-DEP frame limits)",
+    "clf.lock is replaced by env.recdevice.GuardLock (same semantics, raises instead of blocking when acquired while held in the single harness thread)",
+    "the host-link fault model: IOError(ENODEV) or KeyboardInterrupt raised at the entry of one driver method",
+]
